@@ -14,11 +14,17 @@ Static clauses (each a necessary condition of "nothing added, dropped, re-associ
             validity keeps (since -> validity_interval_start, until -> ttl), and every Self-rebuilding traversal of the IR
             (apply_*, try_map_components, Node::apply, reduce) feeds field f from self.f
   CTX       same-named block fields are lowered in the same context (address / asset / datum) in every block kind
+            ... and no block's own lowering switches context before lowering its fields (context switches belong to the
+            field arms)
   FIELDUSE  every field of ir::Tx and of the IR block structs is consulted by the Cardano compiler's closure
   NOFILTER  no filtering adaptor drops items of the input / output / reference / collateral / signer / metadata lists on their
             way into the body, other than the tabled ones; a Result used as an iterator (flat_map over a fallible coercion)
             counts as a filter: it drops the item instead of failing
   ORDER     outputs are compiled in source order (no reordering adaptor)
+  OPTIONAL  only optional outputs that carry nothing are left out: truth table (E17) of the outputs' filter predicate
+  KIND      number / asset arithmetic keeps its kind: add / neg of the Arithmetic impls for i128 and for asset bags build only
+            Expression::Number resp. Expression::Assets, never the absent operand `None`
+  MERGE / FORMULA  see C02 (quantity maps are merged by aggregation) and E15 (slot <-> time are the affine maps)
 Not decided: the semantic equality itself - arithmetic results, coercions, address construction, CBOR content.
 """
 import re
